@@ -1539,6 +1539,37 @@ func genDB(repo, out string) {
 		}
 		sb.WriteString(d5 + "\n")
 	}
+	// memtable.set: a batch is one wal write
+	{
+		fm := findFunc(p, "memtable", "set")
+		sp := transSpec{
+			leanName: "memtableSet",
+			binders:  "{ε : Type} (readOnly writeFails : Bool) (entries : List ε) (ev : List (String × List ε))",
+			retType:  "Option (List (String × List ε))",
+			exprMap:  map[string]string{"mt.readOnly": "readOnly", "err != nil": "err"},
+			state:    []string{"ev"}, stateLn: []string{"ev"}, evVar: "ev", stateTy: []string{"List (String × List ε)"},
+			effects:  map[string]string{"mt.skiplist.Set(entry)": "skiplist.Set|[entry]", "mt.wal.Write(entries...)": "wal.Write|entries"},
+			binds:    map[string][][2]string{"mt.wal.Write(entries...)": {{"err", "writeFails"}}},
+			wraps:    map[string]func(string) string{"mt.logger.Panicf(*": func(string) string { return "none" }},
+			skipStmt: func(st ast.Stmt) bool { s := goStr(st); return s == "mt.mu.Lock()" || s == "defer mt.mu.Unlock()" },
+			ret:      func(vals []string, st []string) string { return "some ev" },
+			fallOff:  func(st []string) string { return "some ev" },
+			panicVal: "none",
+			skipCall: func(c *ast.CallExpr) bool {
+				s := goStr(c.Fun)
+				return strings.HasPrefix(s, "vhook.") || s == "mt.logger.Infof" || s == "mt.logger.Debugf"
+			},
+		}
+		d := ""
+		err := fmt.Errorf("memtable.set not found")
+		if fm != nil {
+			d, err = translateFunc(fm, sp)
+		}
+		if err != nil {
+			d = fmt.Sprintf("/-- UNTRANSLATABLE: %s -/\ndef memtableSet : Unit := ()\n", strings.ReplaceAll(err.Error(), "-/", "- /"))
+		}
+		sb.WriteString(d + "\n")
+	}
 	// Open: the order of recovery and how the oracle is re-seeded
 	{
 		var fd *ast.FuncDecl
